@@ -11,7 +11,7 @@ from qsim import plan as P
 from qsim.core import Run, SimCrash, close
 
 PROP = "C17"
-QUICK_RUNS = 2400
+QUICK_RUNS = 4800
 RULE = (
     "one case = one or two consecutive training runs (second run continues with starting_epoch or after clear_history) with "
     "1-5 periodic callbacks (MetricEvaluator with pure + call-recording metrics, ObservableEvaluator with instrumented "
@@ -73,8 +73,11 @@ def generate(seed, tier):
         elif m2 < 0.6:
             runs.append({"starting_epoch": 1, "epochs": r.randint(1, 5), "clear": True})
         elif m2 < 0.8:
-            # the same epoch range again after clear_history (same number of evaluations as the first run)
-            runs.append({"starting_epoch": se, "epochs": se + span - 1, "clear": True})
+            # the same epoch range again (same number of evaluations as the first run), with or without clear_history
+            runs.append({"starting_epoch": se, "epochs": se + span - 1, "clear": r.random() < 0.6})
+        elif m2 < 0.88:
+            # a run that starts again at the epoch the first one ended with, records accumulate
+            runs.append({"starting_epoch": se + span - 1, "epochs": se + span - 1 + r.randint(0, 3), "clear": False})
         else:
             # a shifted range of the same length after clear_history
             sh = r.choice([1, 2, 3, 4, 6])
@@ -201,7 +204,7 @@ def execute(plan):
                     if spec["metadata"] == "callable":
                         def md(nn_state, epoch, rec=rec):
                             rec["md_calls"].append((cur["run"], cur["epoch"], epoch))
-                            return {"epoch": epoch, "note": "from-callable"}
+                            return _callable_md(epoch)
 
                         meta = md
                     elif spec["metadata"] == "dict":
@@ -471,7 +474,7 @@ def execute(plan):
                     snap = ts_params.get(ri) if lbl == "initial" else ee_params.get((ri, e))
                     if snap is None:
                         continue
-                    want_md = {"epoch": e, "note": "from-callable"} if spec["metadata"] == "callable" else (rec.get("md_copy") if spec["metadata"] == "dict" else {})
+                    want_md = _callable_md(e) if spec["metadata"] == "callable" else (rec.get("md_copy") if spec["metadata"] == "dict" else {})
                     try:
                         raw = torch.load(pth)
                     except Exception as exc:  # noqa: BLE001
@@ -484,6 +487,10 @@ def execute(plan):
                     for k_, v_ in want_md.items():
                         if k_ not in raw or raw[k_] != v_:
                             run.violate("17-ckpt", f"checkpoint {_short(pth)} lacks requested metadata {k_}={v_!r}", **detail)
+                    reserved = set(state.networks) | ({"unitary_dict"} if scfg["type"] != "positive" else set())
+                    stray = sorted(set(raw.keys()) - reserved - set(want_md.keys()))
+                    if stray:
+                        run.violate("17-ckpt", f"checkpoint {_short(pth)} carries metadata that was not requested for that epoch: {stray}", **detail)
                     try:
                         st2 = state_class(scfg["type"]).autoload(pth, gpu=False)
                     except Exception as exc:  # noqa: BLE001
@@ -513,6 +520,16 @@ def execute(plan):
     run.sim["periodic_actions"] += actions
     run.sim["disk_writes"] += disk.total_writes
     return run.result()
+
+
+def _callable_md(epoch):
+    """what the user's metadata callable returns: the key set depends on the epoch"""
+    md = {"epoch": epoch, "note": "from-callable"}
+    if epoch % 2 == 0:
+        md["milestone"] = f"even-{epoch}"
+    if epoch == 3:
+        md["extra"] = [epoch, {"k": (1, 2)}]
+    return md
 
 
 def _short(p):
